@@ -9,14 +9,6 @@ correspondence run (a rewrite that keeps the behaviour ends as `no-failing-input
 namespace CV.C04.Expected
 
 
-/-- Cluster.Pin -/
-def pinPublic : List String := [
-  "ctx = trace.NewContext(c.ctx, span)",
-  "pin := api.PinWithOpts(h, opts)",
-  "result, _, err := c.pin(ctx, pin, []peer.ID{})",
-  "return result, err"
-]
-
 /-- Cluster.setupReplicationFactor -/
 def setupReplicationFactor : List String := [
   "rplMin := pin.ReplicationFactorMin",
@@ -35,111 +27,6 @@ def setupReplicationFactor : List String := [
   "return isReplicationFactorValid(rplMin, rplMax)"
 ]
 
-/-- Cluster.setupPin -/
-def setupPin : List String := [
-  "err := c.setupReplicationFactor(pin)",
-  "if err != nil {",
-  "return err",
-  "}",
-  "if !pin.ExpireAt.IsZero() && pin.ExpireAt.Before(time.Now()) {",
-  "return errors.New(S)",
-  "}",
-  "if existing == nil {",
-  "return nil",
-  "}",
-  "if existing.Type != pin.Type {",
-  "msg := S",
-  "msg += S",
-  "msg += S",
-  "return fmt.Errorf(msg, pin.Type, existing.Type)",
-  "}",
-  "if existing.Mode == api.PinModeRecursive && pin.Mode != api.PinModeRecursive {",
-  "msg := S",
-  "msg += S",
-  "return fmt.Errorf(msg, pin.Mode)",
-  "}",
-  "return checkPinType(pin)"
-]
-
-/-- Cluster.pin -/
-def pinInternal : List String := [
-  "if c.config.FollowerMode {",
-  "return nil, false, errFollowerMode",
-  "}",
-  "if pin.Cid == cid.Undef {",
-  "return pin, false, errors.New(S)",
-  "}",
-  "if update := pin.PinUpdate; update != cid.Undef && !update.Equals(pin.Cid) && len(blacklist) == 0 {",
-  "pin, err := c.PinUpdate(ctx, update, pin.Cid, pin.PinOptions)",
-  "return pin, true, err",
-  "}",
-  "existing, err := c.PinGet(ctx, pin.Cid)",
-  "if err != nil && err != state.ErrNotFound {",
-  "return pin, false, err",
-  "}",
-  "err = c.setupPin(ctx, pin, existing)",
-  "if err != nil {",
-  "return pin, false, err",
-  "}",
-  "if pin.Type == api.MetaType {",
-  "return pin, true, c.consensus.LogPin(ctx, pin)",
-  "}",
-  "if existing != nil &&",
-  "pin.PinOptions.Equals(&existing.PinOptions) &&",
-  "len(blacklist) == 0 {",
-  "pin = existing",
-  "}",
-  "if len(pin.Allocations) == 0 {",
-  "allocs, err := c.allocate(",
-  "ctx,",
-  "pin.Cid,",
-  "existing,",
-  "pin.ReplicationFactorMin,",
-  "pin.ReplicationFactorMax,",
-  "blacklist,",
-  "pin.UserAllocations,",
-  ")",
-  "if err != nil {",
-  "return pin, false, err",
-  "}",
-  "pin.Allocations = allocs",
-  "}",
-  "if len(pin.Allocations) == 0 {",
-  "} else {",
-  "}",
-  "return pin, true, c.consensus.LogPin(ctx, pin)"
-]
-
-/-- Cluster.Unpin -/
-def unpin : List String := [
-  "ctx = trace.NewContext(c.ctx, span)",
-  "if c.config.FollowerMode {",
-  "return nil, errFollowerMode",
-  "}",
-  "pin, err := c.PinGet(ctx, h)",
-  "if err != nil {",
-  "return nil, err",
-  "}",
-  "switch pin.Type {",
-  "case api.DataType:",
-  "return pin, c.consensus.LogUnpin(ctx, pin)",
-  "case api.ShardType:",
-  "err := S",
-  "return pin, errors.New(err)",
-  "case api.MetaType:",
-  "err := c.unpinClusterDag(pin)",
-  "if err != nil {",
-  "return pin, err",
-  "}",
-  "return pin, c.consensus.LogUnpin(ctx, pin)",
-  "case api.ClusterDAGType:",
-  "err := S",
-  "return pin, errors.New(err)",
-  "default:",
-  "return pin, errors.New(S)",
-  "}"
-]
-
 /-- Cluster.unpinClusterDag -/
 def unpinClusterDag : List String := [
   "cids, err := c.cidsFromMetaPin(ctx, metaPin.Cid)",
@@ -153,49 +40,6 @@ def unpinClusterDag : List String := [
   "}",
   "}",
   "return nil"
-]
-
-/-- Cluster.PinUpdate -/
-def pinUpdate : List String := [
-  "if c.config.FollowerMode {",
-  "return nil, errFollowerMode",
-  "}",
-  "existing, err := c.PinGet(ctx, from)",
-  "if err != nil {",
-  "return nil, err",
-  "}",
-  "if existing.Type != api.DataType {",
-  "return nil, errors.New(S)",
-  "}",
-  "existing.Cid = to",
-  "existing.PinUpdate = from",
-  "if opts.Name != S {",
-  "existing.Name = opts.Name",
-  "}",
-  "if !opts.ExpireAt.IsZero() && opts.ExpireAt.After(time.Now()) {",
-  "existing.ExpireAt = opts.ExpireAt",
-  "}",
-  "return existing, c.consensus.LogPin(ctx, existing)"
-]
-
-/-- Cluster.PinPath -/
-def pinPath : List String := [
-  "ctx = trace.NewContext(c.ctx, span)",
-  "ci, err := c.ipfs.Resolve(ctx, path)",
-  "if err != nil {",
-  "return nil, err",
-  "}",
-  "return c.Pin(ctx, ci, opts)"
-]
-
-/-- Cluster.UnpinPath -/
-def unpinPath : List String := [
-  "ctx = trace.NewContext(c.ctx, span)",
-  "ci, err := c.ipfs.Resolve(ctx, path)",
-  "if err != nil {",
-  "return nil, err",
-  "}",
-  "return c.Unpin(ctx, ci)"
 ]
 
 /-- checkPinType -/
